@@ -30,6 +30,16 @@ def targeted_histories(actions):
     return out
 
 
+SYMBOLIC = ("as_expression", "as_expression-reverse", "normalize")
+
+
+def symbolic_pairs(actions):
+    """one simplification after another (on the same or on a sharing expression): flags left on
+    shared sub-expression objects by the first must not change what the second returns"""
+    sym = [a for a in actions if a[0] in SYMBOLIC]
+    return [([a], f) for a in sym for f in sym] + [([a, a], f) for a in sym for f in sym if a[1] != f[1]][:600]
+
+
 def repeated_queries(actions):
     """the very same query repeated on the kept objects (e.g. a memo recorded by a call that failed)"""
     out = []
@@ -72,6 +82,7 @@ def check(rep):
         per_final = (30, 30, 12)
     runs += tgt
     runs += repeated_queries(actions)
+    runs += symbolic_pairs(actions)
     for f in actions:
         for h in sample_histories(actions, rng, *per_final):
             runs.append((h, f))
